@@ -171,6 +171,12 @@ def _split():
                 # a new element at slot 15 / 16 rises across two min (or max) levels: 45 s
                 step(op, "dq", n, "inv", "or", {"C02": QUICK if op == "push" else THOROUGH}, tables=f"idk{k}", grow=grow,
                      cost=300 if op == "push" else 2500, mem=4 if op == "push" else 16)
+    # the max-heap at depth 3..4 (n = 15, 16): a new element at the deepest slot, an update at
+    # the root / an inner node / the last leaf, a removal near the root
+    for n in (15, 16):
+        for op, grow, keys in (("push", 1, (n,)), ("change_priority", 0, (0, 3, n - 1)), ("remove", 0, (0, 1, 7))):
+            for k in keys:
+                step(op, "pq", n, "inv", "or", {"C01": QUICK if n == 15 else THOROUGH}, tables=f"idk{k}", grow=grow, cost=200, mem=4)
     # C11 / C12 on the min-max heap at n = 4: every position, all groups
     for n, t in ((4, QUICK), (6, THOROUGH)):
         for op in ("push_increase", "push_decrease"):
@@ -643,8 +649,10 @@ def _cost():
                         keys = {"push": [n], "change": [0, n - 1], "remove": [3]}.get(op, [0]) if n == 16 else []
                     for k in keys:
                         grow = 1 if op == "push" else 0
+                        # the max-heap at n = 15 costs 20-50 s per position: quick
+                        tt = QUICK if (not dq and n == 15 and k in (0, 7, 14, 15)) else THOROUGH
                         inst(f"cost_{kind}_{op}_n{n}_idk{k}", f"cost::cost::<{ty}, {n}>({opi}, Tables::IdentityKey({k}))",
-                             kind, n + grow, {"C05": THOROUGH}, "COST",
+                             kind, n + grow, {"C05": tt}, "COST",
                              meta=dict(op=op, kind=kind, n=n, tables=f"identity, key {k}"), covers_required=False,
                              cost=2000 if dq else 600, mem=16 if dq else 8)
 
